@@ -34,8 +34,7 @@ func checkMethod(t *testing.T, method string) {
 	json.Unmarshal(mb, &seen)
 	rec := &recReq{}
 	rpc.HandleRequest([]byte(fmt.Sprintf(`{"id":1,"method":%s}`, mb)), rec)
-	for _, c := range rec.calls {
-		parts := strings.Split(c, "|")
+	for _, parts := range rec.recs {
 		if !refValidRID(parts[1], true) || !codec.IsValidRID(parts[1], true) {
 			t.Fatalf("method %q dispatched with invalid rid %q", seen, parts[1])
 		}
